@@ -452,6 +452,32 @@ def materialise_files(case, wd, style=None, name='m'):
     return config_text(case, [('DS', opts)])
 
 
+def materialise_layout(case, wd, layout, style=None, name='m'):
+    """Like materialise_files, but the triples maps are spread over several mapping files and data-source sections.
+    layout: [[[tm ids of file 0 of section 0], [file 1]], [[file 0 of section 1]], ...]"""
+    style = style or Style()
+    cfg1 = materialise_files(case, wd, style, name)        # writes the data files (and one complete mapping file, unused)
+    paths = {}
+    for i, s in enumerate(case['sources']):
+        kind = s.get('kind', 'csv')
+        paths[s['key']] = '%s_%d.%s' % (name, i, 'csv' if kind == 'view' else kind)
+    by_id = {t['id']: t for t in case['doc']}
+    sections = []
+    has_db = any(s.get('kind') in ('sqltable', 'sqlquery') for s in case['sources'])
+    for si, files in enumerate(layout):
+        names = []
+        for fi, ids in enumerate(files):
+            fn = '%s_s%d_f%d.ttl' % (name, si, fi)
+            with open(os.path.join(wd, fn), 'w', encoding='utf-8') as f:
+                f.write(render_mapping(case, style, paths, tms=[by_id[i] for i in ids]))
+            names.append(fn)
+        opts = {'mappings': ','.join(names)}
+        if has_db:
+            opts['db_url'] = 'sqlite:///' + name + '.db'
+        sections.append(('DS%d' % si, opts))
+    return config_text(case, sections)
+
+
 def config_text(case, sections, extra=None):
     c = case['cfg']
     lines = ['[CONFIGURATION]', 'number_of_processes=%s' % c.get('procs', 1), 'logging_level=ERROR',
